@@ -4,7 +4,7 @@ import itertools
 from vf import edits, smallcurve
 from vf.ref import base58_ref as B58
 from vf.ref.ecref import SECP256K1 as S
-from vf.runner import Acc, filler
+from vf.runner import Acc, filler, as_tuple
 
 PROPERTY = "C14"
 # E6: seq_ops() indices of the operations that are interrupted at every line (vf/seqexplore.interrupted); probes = the whole alphabet
@@ -83,7 +83,7 @@ def chk_sec1(case):
         if isp != ("ok", False):
             out.append((f"C14/sec1/is_point/invalid-not-false/{cls}", f"is_point({b.hex()}) = {isp}"))
     else:
-        if got[0] != "ok" or tuple(got[1]) != exp:
+        if got[0] != "ok" or as_tuple(got[1]) != exp:
             out.append(("C14/sec1/valid-rejected-or-wrong", f"point({b.hex()}) = {got}, expected {exp}"))
         if isp != ("ok", True):
             out.append(("C14/sec1/is_point/valid-not-true", f"is_point({b.hex()}) = {isp}"))
@@ -115,7 +115,7 @@ def chk_wif_rt(case):
     if enc[1] != B58.check_encode(bytes([base]) + key + data):
         return [("C14/wif/encoding", f"wif_encode({key.hex()}, {typ}, {net}) = {enc[1]}")]
     dec = call(bits.wif_decode, enc[1])
-    if dec[0] != "ok" or tuple(dec[1]) != (bytes([base]), key, data):
+    if dec[0] != "ok" or as_tuple(dec[1]) != (bytes([base]), key, data):
         return [("C14/wif/roundtrip", f"wif_decode(wif_encode(.., {typ}, {net}, data {len(data)}B)) = {str(dec)[:200]}")]
     dd = call(bits.wif_decode, enc[1], return_dict=True)
     cls = "mainnet" if net == "mainnet" else "testnet"
@@ -161,7 +161,7 @@ def chk_pem(case):
         if pem[0] != "ok":
             return [("C14/pem/encode-raised", f"pem_encode_key({key.hex()}) = {pem}")]
         dec = call(bu.pem_decode_key, pem[1])
-        if dec[0] != "ok" or tuple(dec[1]) != (key, upk):
+        if dec[0] != "ok" or as_tuple(dec[1]) != (key, upk):
             out.append(("C14/pem/priv-roundtrip", f"pem_decode_key(pem_encode_key({key.hex()})) = {str(dec)[:200]}"))
         try:
             o = serialization.load_pem_private_key(pem[1], None)
@@ -175,7 +175,7 @@ def chk_pem(case):
         opem = ok.private_bytes(serialization.Encoding.PEM, serialization.PrivateFormat.TraditionalOpenSSL,
                                 serialization.NoEncryption())
         dec = call(bu.pem_decode_key, opem)
-        if dec[0] != "ok" or tuple(dec[1]) != (key, upk):
+        if dec[0] != "ok" or as_tuple(dec[1]) != (key, upk):
             out.append(("C14/pem/library-cannot-read-openssl-priv", f"key {key.hex()}: pem_decode_key(OpenSSL PEM) = {str(dec)[:160]}"))
         pub = call(bu.pubkey_from_pem, opem)
         if pub != ("ok", upk):
@@ -186,7 +186,7 @@ def chk_pem(case):
         if pem[0] != "ok":
             return [("C14/pem/encode-raised", f"pem_encode_key({pk.hex()}) = {pem}")]
         dec = call(bu.pem_decode_key, pem[1])
-        if dec[0] != "ok" or tuple(dec[1]) != (pk,):
+        if dec[0] != "ok" or as_tuple(dec[1]) != (pk,):
             out.append(("C14/pem/pub-roundtrip", f"pem_decode_key(pem_encode_key({pk.hex()})) = {str(dec)[:200]}"))
         P = sec1_strict(S, pk)
         try:
@@ -200,7 +200,7 @@ def chk_pem(case):
             o = ec.EllipticCurvePublicNumbers(P[0], P[1], ec.SECP256K1()).public_key()
             opem = o.public_bytes(serialization.Encoding.PEM, serialization.PublicFormat.SubjectPublicKeyInfo)
             dec = call(bu.pem_decode_key, opem)
-            if dec[0] != "ok" or tuple(dec[1]) != (pk,):
+            if dec[0] != "ok" or as_tuple(dec[1]) != (pk,):
                 out.append(("C14/pem/library-cannot-read-openssl-pub", f"{str(dec)[:160]}"))
     return out
 
@@ -248,7 +248,7 @@ def chk_pem_forms(case):
             for what, kk, exp in (("priv", key, (key, upk)), ("pub", cpk, (cpk,)), ("pub", upk, (upk,))):
                 pem = call(bits.pem_encode_key, kk)
                 dec = call(bu.pem_decode_key, pem[1]) if pem[0] == "ok" else pem
-                if dec[0] != "ok" or tuple(dec[1]) != exp:
+                if dec[0] != "ok" or as_tuple(dec[1]) != exp:
                     out.append((f"C14/pem/roundtrip-under-linesep/{what}", f"os.linesep={sep!r}: pem_decode_key(pem_encode_key({kk.hex()[:16]}..)) = {str(dec)[:160]}"))
         finally:
             os.linesep = saved
